@@ -33,6 +33,15 @@ CONFIGS = {
     "micromath_nocheck": ["--no-default-features", "--features", "alloc,micromath,devices"],
     "micromath_check": ["--no-default-features", "--features", "alloc,micromath,devices,dim_check_release"],
     "bare": ["--no-default-features"],
+    # optimised-build semantics: debug assertions (and with them rustc's overflow panics and `debug_assert!`) compiled
+    # out via RUSTFLAGS (CONFIG_ENV).  `rel_check` = `--release --features dim_check_release` (units still checked),
+    # `rel_default` = `--release` with the default features (dim_check_debug without debug assertions = unchecked).
+    "rel_check": ["--features", "devices,dim_check_release"],
+    "rel_default": ["--features", "devices"],
+}
+CONFIG_ENV = {
+    "rel_check": {"RUSTFLAGS": "-C debug-assertions=off"},
+    "rel_default": {"RUSTFLAGS": "-C debug-assertions=off"},
 }
 
 KV = re.compile(r'(\w+)=("([^"]*)"|\S+)')
@@ -200,7 +209,7 @@ def run_harnesses(scratch, config, names, jobs, timeout_s, per_harness_timeout="
     if cbmc_args:
         extra += ["--cbmc-args"] + cbmc_args.split()
     cmd = kani_cmd(config, extra)
-    rc, out, secs = run(cmd, cwd=scratch, timeout=timeout_s)
+    rc, out, secs = run(cmd, cwd=scratch, timeout=timeout_s, extra_env=CONFIG_ENV.get(config))
     if rc == -9:
         raise Undecided("cargo kani timed out after %ss (config %s)" % (timeout_s, config))
     if not os.path.exists(out_json):
@@ -243,7 +252,7 @@ def playback(scratch, config, full_name, module_file, cbmc_args=None):
     cmd = kani_cmd(config, ["--output-format", "terse", "--exact", "--harness", full_name,
                             "-Z", "concrete-playback", "--concrete-playback=print"] +
                    (["--cbmc-args"] + cbmc_args.split() if cbmc_args else []))
-    rc, out, _ = run(cmd, cwd=scratch, timeout=1800)
+    rc, out, _ = run(cmd, cwd=scratch, timeout=1800, extra_env=CONFIG_ENV.get(config))
     blocks = [b for b in re.findall(r"```\n(.*?)```", out, re.S) if "kani_concrete_playback_" in b]
     if not blocks:
         return {"generated": False, "kani_output": _tail(out)}
@@ -267,7 +276,7 @@ def run_playback_test(scratch, config, module_file, code, test, short):
     mp = os.path.join(scratch, "verif_kani", module_file)
     write(mp, read(mp) + "\n" + code + "\n")
     pcmd = ["cargo", "kani", "playback", "--lib"] + CONFIGS[config] + ["-Z", "concrete-playback", "--", test]
-    rc2, out2, _ = run(pcmd, cwd=scratch, timeout=1800)
+    rc2, out2, _ = run(pcmd, cwd=scratch, timeout=1800, extra_env=CONFIG_ENV.get(config))
     ran = bool(re.search(r"test \S*%s \.\.\. (ok|FAILED)" % re.escape(test), out2))
     failed_natively = bool(re.search(r"test \S*%s \.\.\. FAILED" % re.escape(test), out2))
     panic = re.findall(r"panicked at [^\n]*\n[^\n]*", out2)
